@@ -165,7 +165,7 @@ func (r *runner) install() error {
 	changed := cur.key() != r.acceptedKey
 	r.acceptedKey = cur.key()
 	if r.window {
-		if r.fault == nil && changed {
+		if r.fault == nil && changed && r.lastChangeIntact {
 			// A configuration different from the previous one has been applied
 			// and every file was intact: it is in force.
 			r.window = false
